@@ -152,9 +152,10 @@ func (s *Super) runBatch(b batch) *Agg {
 	var extra []Violation
 	inconc := map[string]int64{}
 	var herrs []string
+	nonterm := 0
 	for attempt := 0; ; attempt++ {
 		out := filepath.Join(s.Dir, fmt.Sprintf("b%05d", b.idx))
-		for _, suf := range []string{".marker", ".result.json", ".hashes"} {
+		for _, suf := range []string{".marker", ".result.json", ".hashes", ".cpulimit"} {
 			os.Remove(out + suf)
 		}
 		old, _ := filepath.Glob(out + ".race.*")
@@ -173,7 +174,7 @@ func (s *Super) runBatch(b batch) *Agg {
 		}
 		ctx, cancel := context.WithTimeout(context.Background(), s.Watchdog)
 		cmd := exec.Command(s.Exe, "-worker", "-prop", s.Prop.ID, "-tier", s.Tier, "-seed", strconv.FormatUint(s.Seed, 10),
-			"-from", strconv.Itoa(b.from), "-to", strconv.Itoa(b.to), "-skip", strings.Join(sk, ","), "-out", out)
+			"-from", strconv.Itoa(b.from), "-to", strconv.Itoa(b.to), "-skip", strings.Join(sk, ","), "-out", out, "-cpulimit", strconv.Itoa(s.caseCPU()))
 		cmd.Stdout = logf
 		cmd.Stderr = logf
 		cmd.Env = append(os.Environ(), "GOTRACEBACK=all", "VERIF_SCRATCH="+s.Dir)
@@ -219,7 +220,15 @@ func (s *Super) runBatch(b batch) *Agg {
 			herrs = append(herrs, fmt.Sprintf("batch %d: worker failed before/after cases (err=%v): %s", b.idx, err, firstLines(logText, 15)))
 			break
 		}
-		if timedOut {
+		if _, cerr := os.Stat(out + ".cpulimit"); cerr == nil && !timedOut {
+			// the case burnt its whole CPU allowance: it does not terminate
+			nonterm++
+			extra = append(extra, Violation{Case: culprit, Sig: "nontermination:cpu-limit@" + spinningFrame(logText), Detail: fmt.Sprintf("the case used more than %d s of CPU time (orders of magnitude above any legitimate case) and was stopped:\n%s", s.caseCPU(), firstLines(cpuExcerpt(logText), 60))})
+			if nonterm >= 3 {
+				herrs = append(herrs, fmt.Sprintf("batch %d: 3 non-terminating cases; the remaining cases of the batch were not run", b.idx))
+				break
+			}
+		} else if timedOut {
 			if isDeadlock(logText) {
 				extra = append(extra, Violation{Case: culprit, Sig: "deadlock@" + InnermostRepoFrame(logText), Detail: "watchdog fired and no goroutine was runnable:\n" + firstLines(logText, 60)})
 			} else {
@@ -240,6 +249,39 @@ func (s *Super) runBatch(b batch) *Agg {
 	a.Inconclusive = inconc
 	a.HarnessErrs = herrs
 	return a
+}
+
+func (s *Super) caseCPU() int {
+	if s.Prop.CaseCPU > 0 {
+		return s.Prop.CaseCPU
+	}
+	return 300
+}
+
+func cpuExcerpt(log string) string {
+	if i := strings.Index(log, "CPU-LIMIT:"); i >= 0 {
+		return log[i:]
+	}
+	return log
+}
+
+// spinningFrame names the innermost in-repo function of a goroutine that was
+// running or runnable when the CPU allowance ran out.
+func spinningFrame(log string) string {
+	log = cpuExcerpt(log)
+	blocks := strings.Split(log, "\n\n")
+	for _, want := range []string{"running", "runnable"} {
+		for _, blk := range blocks {
+			m := goroutineHdr.FindStringSubmatch(strings.TrimSpace(firstLines(strings.TrimSpace(blk), 1)))
+			if m == nil || m[1] != want {
+				continue
+			}
+			if f := InnermostRepoFrame(blk); f != "?" {
+				return f
+			}
+		}
+	}
+	return InnermostRepoFrame(log)
 }
 
 func readResult(out string) (*Agg, error) {
@@ -679,11 +721,11 @@ func (s *Super) replay(path string) int {
 		return 2
 	}
 	var rp struct {
-		Property string  `json:"property"`
-		Tier     string  `json:"tier"`
-		Seed     uint64  `json:"seed"`
-		Case     int     `json:"case"`
-		Sig      string  `json:"signature"`
+		Property string                 `json:"property"`
+		Tier     string                 `json:"tier"`
+		Seed     uint64                 `json:"seed"`
+		Case     int                    `json:"case"`
+		Sig      string                 `json:"signature"`
 		Payload  map[string]interface{} `json:"payload"`
 	}
 	if err := json.Unmarshal(b, &rp); err != nil {
